@@ -738,6 +738,8 @@ def _oracle_reference_matrices(ctx, relems, tr):
         ctx.count(('refmass', e.name, np.asarray(m.p).tobytes()), nontrivial=True)
         tr.cmp(f'refmass:{e.name}', f'mass matrix of {e.name} on an integer-affine {kind} mesh vs |det A| * exact reference literal (max abs entry error)',
                worst, 0.0, float(sum(vol)), {**mesh_data(m), 'element': e.name})
+        if e.tensor is not None:
+            _ref_tensor_load_facets(ctx, e, kind, m, tr, meshcls)
         if e.stiff is None:
             continue
         m0 = meshcls[kind].init_refdom()
@@ -758,6 +760,73 @@ def _oracle_reference_matrices(ctx, relems, tr):
         tr.cmp(f'refstiff:{e.name}', f'stiffness matrix of {e.name} on h*Q*(reference cell)+c vs h^(d-2) * exact reference literal (max abs entry error)',
                worst, 0.0, float(fac) * max(1.0, max(abs(float(x)) for r in e.stiff for x in r)),
                {'element': e.name, 'h': h, 'Q': Q.tolist(), 'c': c0.tolist()})
+
+
+def _ref_tensor_load_facets(ctx, e, kind, m, tr, meshcls):
+    """(a) stiffness on GENERAL integer-affine simplices vs |det A| * sum_kl (A^-1 A^-T)_kl * tensor literal;
+    (b) load vectors for monomial data on the reference cell vs the literals; (c) mass matrix of single facets vs
+    detB * facet literal of the local facet slot"""
+    from skfem.assembly import Basis, FacetBasis, BilinearForm, LinearForm
+    from skfem.helpers import dot, grad
+    d = e.dim
+    basis = Basis(m, e.elem)
+    ed = np.asarray(basis.element_dofs)
+    S = BilinearForm(lambda u, v, w: dot(grad(u), grad(v))).assemble(basis).toarray()
+    want = [[Fraction(0)] * basis.N for _ in range(basis.N)]
+    scale = 0.0
+    for c in range(m.t.shape[1]):
+        V = X.verts_of(m, m.t[:, c])
+        A = [[V[k + 1][i] - V[0][i] for k in range(d)] for i in range(d)]          # A[i][k] = d x_i / d xi_k
+        det = X.det(A)
+        B = X.solve(A, [[Fraction(int(i == j)) for j in range(d)] for i in range(d)])   # B[k][m] = d xi_k / d x_m
+        G = [[sum(B[k][mm] * B[l][mm] for mm in range(d)) for l in range(d)] for k in range(d)]
+        for i in range(ed.shape[0]):
+            for j in range(ed.shape[0]):
+                v = abs(det) * sum(G[k][l] * e.tensor[k][l][i][j] for k in range(d) for l in range(d))
+                want[int(ed[i, c])][int(ed[j, c])] += v
+                scale = max(scale, abs(float(v)))
+    worst = max(abs(float(S[i, j]) - float(want[i][j])) for i in range(basis.N) for j in range(basis.N))
+    ctx.count(('reftensor', e.name, np.asarray(m.p).tobytes()), nontrivial=True)
+    tr.cmp(f'reftensor:{e.name}', f'stiffness matrix of {e.name} on a general integer-affine {kind} mesh vs |det A| * sum_kl (A^-1 A^-T)_kl * exact '
+           f'reference tensor literal (max abs entry error)', worst, 0.0, max(scale, 1e-300) * 10, {**mesh_data(m), 'element': e.name})
+    # (b) loads on the reference cell
+    m0 = meshcls[kind].init_refdom()
+    b0 = Basis(m0, e.elem, intorder=EL.LOADK + e.maxdeg)
+    ed0 = np.asarray(b0.element_dofs)
+    for mono, lit in zip(e.loadmonos, e.loads):
+        def form(v, w, mono=mono):
+            f = 1.0 + 0.0 * w.x[0]
+            for i, ei in enumerate(mono):
+                if ei:
+                    f = f * w.x[i] ** ei
+            return f * v
+        vec = LinearForm(form).assemble(b0)
+        worst = max(abs(float(vec[int(ed0[i, 0])]) - float(lit[i])) for i in range(ed0.shape[0]))
+        ctx.count(('refload', e.name, mono), nontrivial=sum(mono) > 0)
+        tr.cmp(f'refload:{e.name}', f'load vector of {e.name} for the data x^{list(mono)} on the reference {kind} vs the exact literal (max abs entry error)',
+               worst, 0.0, 1.0, {'element': e.name, 'monomial': list(mono), 'intorder': EL.LOADK + e.maxdeg})
+    # (c) single-facet mass matrices
+    if e.facets is None:
+        return
+    t2f, f2t = np.asarray(m.t2f), np.asarray(m.f2t)
+    bnd = set(int(x) for x in m.boundary_facets())
+    fs = sorted(bnd)[:3] + [f for f in range(m.facets.shape[1]) if f not in bnd][:2]
+    for f in fs:
+        c = int(f2t[0, f])
+        slot = int(np.nonzero(t2f[:, c] == f)[0][0])
+        Vf = X.verts_of(m, m.facets[:, f])
+        cols = [[x - y for x, y in zip(v, Vf[0])] for v in Vf[1:]]
+        detB = float(X.gram_det(cols)) ** 0.5
+        fb = FacetBasis(m, e.elem, facets=np.array([f]))
+        Af = BilinearForm(lambda u, v, w: u * v).assemble(fb).toarray()
+        wantf = np.zeros((basis.N, basis.N))
+        for i in range(ed.shape[0]):
+            for j in range(ed.shape[0]):
+                wantf[int(ed[i, c]), int(ed[j, c])] += detB * float(e.facets[slot][i][j])
+        worst = float(np.abs(Af - wantf).max())
+        ctx.count(('reffacet', e.name, int(f), np.asarray(m.p).tobytes()), nontrivial=True)
+        tr.cmp(f'reffacet:{e.name}', f'mass matrix of {e.name} on the single facet {int(f)} (local slot {slot} of cell {c}) vs detB * exact facet literal '
+               f'(max abs entry error)', worst, 0.0, max(detB, 1.0), {**mesh_data(m), 'element': e.name, 'facet': int(f), 'cell': c, 'slot': slot})
 
 
 # ---- exact Lagrange matrices
